@@ -253,6 +253,10 @@ class Extractor:
                 return ("c", v[1])
             if is_none(v):
                 return ("c", None)
+            if v == Val.OBJ:
+                return ("o", "<object>")      # definitely not None: `x is None` tests in the callee are decided
+        if isinstance(e, (ast.Dict, ast.List, ast.Tuple)):
+            return ("o", "<object>")
         return "?"
 
     # ------------------------------------------------------------------
@@ -267,7 +271,7 @@ class Extractor:
         sig = dict(argsig)
         for p in params:
             v = sig.get(p, "?")
-            env[p] = ("const", v[1]) if v != "?" else Val.UNK
+            env[p] = Val.UNK if v == "?" else Val.OBJ if v[0] == "o" else ("const", v[1])
         st = State(getattr(self, "entry_la", {}).get(key, (self.U.all, self.U.all)), (env,))
         work = deque()
         run = _Run(self, prod, fn, selfname, work)
